@@ -25,7 +25,7 @@ func (s *stubHeader) ValidateBasic() error       { return nil }
 // VerifC06Update: a client update is accepted only from an account authorised for exactly that chain,
 // after the client's own message check (the TSS signer check) passed.
 func VerifC06Update() {
-	w := newXWorld(2)
+	w := newXWorld(2 + rt.Tier())
 	hdr, err := codectypes.NewAnyWithValue(&stubHeader{})
 	rt.Assume(err == nil)
 	msg := &clienttypes.MsgUpdateClient{ChainName: rt.Str("chainName"), Header: hdr, Signer: rt.Str("signer")}
@@ -49,7 +49,7 @@ func VerifC06Update() {
 // VerifC06Recv: a receive is accepted only from an account registered as relayer for the packet's source chain,
 // and the fee recipient recorded in the acknowledgement is the address registered for that relayer and chain.
 func VerifC06Recv() {
-	w := newXWorld(2)
+	w := newXWorld(2 + rt.Tier())
 	msg := &packettypes.MsgRecvPacket{Packet: rt.Bytes("packetBytes"), ProofCommitment: rt.Bytes("proof"),
 		ProofHeight: clienttypes.Height{RevisionNumber: rt.U64("rev"), RevisionHeight: rt.U64("height")}, Signer: rt.Str("signer")}
 	var p packettypes.Packet
@@ -93,7 +93,7 @@ func sum(bz []byte) []byte {
 // VerifC06Ack: every module call made while processing an acknowledgement is made as the packet module; the fee is paid
 // to the teleport account registered for the relayer address named in the acknowledgement.
 func VerifC06Ack() {
-	w := newXWorld(2)
+	w := newXWorld(2 + rt.Tier())
 	msg := &packettypes.MsgAcknowledgement{Packet: rt.Bytes("packetBytes"), Acknowledgement: rt.Bytes("ackBytes"), ProofAcked: rt.Bytes("proof"),
 		ProofHeight: clienttypes.Height{RevisionNumber: rt.U64("rev"), RevisionHeight: rt.U64("height")}, Signer: rt.Str("signer")}
 	var p packettypes.Packet
